@@ -74,7 +74,7 @@ Definition f_rc (cfg : fcfg) (i : option idf) (vinit : option fmsg) (cinit : lis
 
 Definition f_observe (cfg : fcfg) (i : option idf) vinit cinit (prog : list fcall) (sched : list nat) :=
   observe fmsg_eqb fzero fw_validate fw_merge fr_filter fclock str_ltb false false (f_rc cfg i vinit cinit)
-          (map to_call prog) sched.
+          (map (to_call_w (cf_writable cfg)) prog) sched.
 
 Definition no_opts : fwo := mkFWO None None None None false None false None false None None false false false false.
 Definition plain_ro : fro := mkFRO None false None.
@@ -87,10 +87,10 @@ Definition eq_sched : list nat := [0; 1; 1; 1]%nat.
 
 Example equivalence_visible_to_subscribers :
   map (fun p => List.length (snd p))
-      (ob_vstreams (f_observe (mkCfg (Some (CqTol Fa 3))) None (Some (mkF 5 0 0)) [] eq_prog eq_sched)) = [1%nat] /\
+      (ob_vstreams (f_observe (mkCfg (Some (CqTol Fa 3)) None) None (Some (mkF 5 0 0)) [] eq_prog eq_sched)) = [1%nat] /\
   map (fun p => List.length (snd p))
-      (ob_vstreams (f_observe (mkCfg None) None (Some (mkF 5 0 0)) [] eq_prog eq_sched)) = [2%nat] /\
-  v_val (w_v (st_w (ob_state (f_observe (mkCfg (Some (CqTol Fa 3))) None (Some (mkF 5 0 0)) [] eq_prog eq_sched)))) = Some (mkF 6 0 0).
+      (ob_vstreams (f_observe (mkCfg None None) None (Some (mkF 5 0 0)) [] eq_prog eq_sched)) = [2%nat] /\
+  v_val (w_v (st_w (ob_state (f_observe (mkCfg (Some (CqTol Fa 3)) None) None (Some (mkF 5 0 0)) [] eq_prog eq_sched)))) = Some (mkF 6 0 0).
 Proof. vm_compute. repeat split. Qed.
 
 (* the exact equivalence of the harness is exact; the others are not *)
